@@ -168,6 +168,10 @@ func (ex *Exec) checkWith(t *sym.Term) (solver.Result, *sym.Model) {
 	return r, m
 }
 
+const fallbackSlots = 5
+
+var fallbackSem = make(chan struct{}, fallbackSlots)
+
 // arithFallback decides PC ∧ t with a one-shot portfolio: z3 4.8.12 and z3 5.1
 // with their full preprocessing (not available to the incremental solver)
 // and cvc5 --solve-bv-as-int=sum; the first definite answer wins.
@@ -194,7 +198,11 @@ func (ex *Exec) arithFallback(t *sym.Term) (solver.Result, *sym.Model) {
 	if d := os.Getenv("VERIF_DUMPQ"); d != "" {
 		os.WriteFile(fmt.Sprintf("%s/q%d.smt2", d, ex.FallbackQueries), []byte(sb.String()), 0o644)
 	}
-	res := solver.Race([]solver.OneShot{solver.Z3Old, solver.Z3New, solver.CVC5Int}, sb.String(), 90*time.Second)
+	// at most fallbackSlots races at a time (three solver processes each), so
+	// that the cap measures solver effort and not the load of the machine
+	fallbackSem <- struct{}{}
+	res := solver.Race([]solver.OneShot{solver.Z3Old, solver.Z3New, solver.CVC5Int}, sb.String(), 240*time.Second)
+	<-fallbackSem
 	ex.FallbackBy[res.Solver]++
 	ex.FallbackTime += res.Dur
 	out := strings.TrimSpace(res.Out)
